@@ -5,9 +5,9 @@ package app
 import (
 	"bytes"
 	"compress/gzip"
-	"io"
 	"context"
 	"fmt"
+	"io"
 	"net/http"
 	"net/http/httptest"
 	"os"
